@@ -233,6 +233,14 @@ def box_data(spec, lv, bid, k):
     if mode == "positive":
         r = np.random.RandomState((spec["data"]["seed"] + 1000003 * lv + 10007 * bid + 101 * k) % (1 << 31))
         return (r.randint(1, 1 << 20, size=n).astype("float64") / 1024.0).reshape(shape, order="F")
+    if mode == "pestle":
+        # field 0: small integers, field 1 (volFrac): dyadic fractions in [0, 1], field 2: one
+        r = np.random.RandomState((spec["data"]["seed"] + 1000003 * lv + 10007 * bid + 101 * k) % (1 << 31))
+        if k == 1:
+            return (r.randint(0, 9, size=n).astype("float64") / 8.0).reshape(shape, order="F")
+        if k == 2:
+            return np.ones(shape)
+        return r.randint(-64, 65, size=n).astype("float64").reshape(shape, order="F")
     if mode == "smallint":
         r = np.random.RandomState((spec["data"]["seed"] + 1000003 * lv + 10007 * bid + 101 * k) % (1 << 31))
         return r.randint(-64, 65, size=n).astype("float64").reshape(shape, order="F")
